@@ -38,7 +38,8 @@ def handle (op : String) (args : Json) : Dec Json := do
   match op with
   | "make_text" =>
     let cc ← decCharClass (← field args "cls")
-    let B0 ← decBreak (← field args "B")
+    -- "B": null = make_text_region_text was called without word_break_chars: the regenerated default
+    let B0 := makeTextBreak (← decBreakOpt (← field args "B"))
     let lines ← asList decLine (← field args "lines")
     let mode ← strF args "mode"
     let (B, decide) ← (match mode with
@@ -55,18 +56,19 @@ def handle (op : String) (args : Json) : Dec Json := do
     return answer (fun (t, rs) => jObj [("text", jOpt jS t), ("ranges", jList jRange rs)])
       (makeText cc B decide lines)
   | "make_line_text" =>
-    let B ← decBreak (← field args "B")
+    let B ← decBreakOpt (← field args "B")
     let rows ← asList asArr (← field args "rows")
     let rs ← rows.mapM (fun r => match r with
       | [t, d, e, m] => do
         let t ← decStr t; let d ← asBool d; let e ← decStr e; let m ← asOpt decStr m
-        pure (answer jS (makeLineText B t d e m))
+        pure (answer jS (makeLineTextD B t d e m))
       | _ => throw "make_line_text row is not a 4-tuple")
     return jObj [("ok", Json.arr rs.toArray)]
   | "merge_lines" =>
     let cc ← decCharClass (← field args "cls")
-    let remove ← boolF args "remove"
-    let wb ← decStr (← field args "wb")
+    -- null = merge_lines was called without the argument: the regenerated default
+    let remove ← asOpt asBool (← field args "remove")
+    let wb ← asOpt decStr (← field args "wb")
     let texts ← asList decOptStr (← field args "texts")
     let hullJ ← field args "hull"
     let hull : List Json → Res Json := fun _ =>
@@ -74,7 +76,7 @@ def handle (op : String) (args : Json) : Dec Json := do
       | .ok v => .ok v
       | .error _ => .error (errOfName ((hullJ.getObjValAs? String "err").toOption.getD ""))
     return answer (fun (c, t) => jObj [("coords", c), ("text", jS t)])
-      (mergeLines hull cc remove wb (texts.map (fun t => (Json.null, t))))
+      (mergeLinesD hull cc remove wb (texts.map (fun t => (Json.null, t))))
   | "line_ends_with_word_break" =>
     let cc ← decCharClass (← field args "cls")
     let wf ← asOpt (fun j => do
